@@ -54,7 +54,7 @@ def regenerate_src():
                      "open AsamCmp AsamCmp.Src\n\n" + OT.emit() + "\n" + OP.emit() + "\n" + OS.emit() + "\n" + OD.emit() + "\nend AsamCmp.SrcGen\n")
             note += "; GeneratedSrcObj.lean: %d Encoder, %d Packet, %d Decoder::SegmentedPacket, %d Decoder methods translated as state transformers (%d / %d / %d / %d not)" % (
                 len(OT.order), len(OP.order), len(OS.order), len(OD.order), len(OT.failed), len(OP.failed), len(OS.failed), len(OD.failed))
-        except srctrans.Untranslatable as e:
+        except Exception as e:  # noqa: any failure of the object translator on the current source => stub file => broken obligations
             otext = "/- GENERATED: the object translator could not run: %s -/\nimport AsamCmp.Src.Obj\nnamespace AsamCmp.SrcGen\nend AsamCmp.SrcGen\n" % str(e).replace("-/", "- /")[:400]
             note += "; GeneratedSrcObj.lean: object translator failed (%s)" % str(e)[:120]
         oldo = open(po).read() if os.path.exists(po) else None
@@ -63,15 +63,19 @@ def regenerate_src():
                 with open(po, "w") as f:
                     f.write(otext)
         from . import srcfields
-        ftext, nprog, nent, notes = srcfields.generate(T)
-        note += "; GeneratedSrcFields.lean: %d bit programs, %d field-accessor entries, %d accessors not covered" % (nprog, nent, len(notes))
+        try:
+            ftext, nprog, nent, notes = srcfields.generate(T)
+            note += "; GeneratedSrcFields.lean: %d bit programs, %d field-accessor entries, %d accessors not covered" % (nprog, nent, len(notes))
+        except Exception as e:  # noqa
+            ftext = "/- GENERATED: the bit-program translator could not run: %s -/\nimport AsamCmp.Src.FieldCheck\nnamespace AsamCmp.SrcGen\nend AsamCmp.SrcGen\n" % str(e).replace("-/", "- /")[:400]
+            note += "; GeneratedSrcFields.lean: bit-program translator failed (%s)" % str(e)[:120]
         pf = os.path.join(core.LEAN, "AsamCmp", "GeneratedSrcFields.lean")
         oldf = open(pf).read() if os.path.exists(pf) else None
         if oldf != ftext:
             with core.Lock("lake"):
                 with open(pf, "w") as f:
                     f.write(ftext)
-    except srctrans.Untranslatable as e:
+    except Exception as e:  # noqa: clang cannot parse the sources, reflection program does not compile, unexpected AST: stub => broken obligations
         text = "/- GENERATED: the translator could not run: %s -/\nimport AsamCmp.Src.Sem\nnamespace AsamCmp.SrcGen\nend AsamCmp.SrcGen\n" % str(e).replace("-/", "- /")[:600]
         note = "GeneratedSrc.lean: translator failed (%s)" % str(e)[:200]
     finally:
